@@ -11,7 +11,7 @@ from pv import shim
 from pv import tlc
 
 TESTS_WITH_REF = ('Frequency', 'BlockFrequency', 'Runs', 'LongestRuns', 'Serial', 'ApproximateEntropy', 'RandomWalk', 'NonOverlappingTemplateMatching',
-                  'LinearComplexityScatter')
+                  'LinearComplexityScatter', 'LinearComplexity')
 
 
 def bits_of(v, n):
@@ -85,6 +85,26 @@ def longest_run_table(M, lo, hi):
   return probs
 
 
+def _bm(seq):
+  """Textbook Berlekamp-Massey over GF(2) on integers (bit i of x = element i)."""
+  nbits = len(seq)
+  x = 0
+  for i, bit in enumerate(seq):
+    x |= bit << i
+  c, bb, L, m = 1, 1, 0, -1
+  for i in range(nbits):
+    d = 0                                   # discrepancy sum_j c_j s_{i-j}
+    for j in range(L + 1):
+      if (c >> j) & 1 and i - j >= 0 and (x >> (i - j)) & 1:
+        d ^= 1
+    if d:
+      tc = c
+      c ^= bb << (i - m)
+      if 2 * L <= i:
+        L, m, bb = i + 1 - L, i, tc
+  return L
+
+
 def ref_pvalues(test, b, par=None):
   """Reference p-values from straight-line transcriptions of SP 800-22 (with the documented deviations); returns dict name->p or None."""
   n = len(b)
@@ -140,6 +160,30 @@ def ref_pvalues(test, b, par=None):
       c = collections.Counter(tuple(b[(i + j) % n] for j in range(m)) for i in range(n))
       return sum(v / n * math.log(v / n) for v in c.values())
     return {'m=%d' % m: igamc(2 ** (m - 1), (2 * n * (math.log(2) - (phi(m) - phi(m + 1)))) / 2) for m in range(2, m_max + 1)}
+  if test == 'LinearComplexity':
+    # SP 800-22 3.10 with the exact seven-class distribution, plus the documented "extreme values" p-value: the probability of
+    # needing q or more coin tosses for N heads, q = sum of -log2 P(linear complexity of the block), P from the exact census
+    M = par
+    N = n // M
+    if M < 10 or M * 200 > n or N * M * M > 6 * 10 ** 7:
+      return None
+    Ls = [_bm(b[k * M:(k + 1) * M]) for k in range(N)]
+    med = (M + 1) // 2
+    pi = [Fraction(1, 96), Fraction(1, 32), Fraction(1, 8), Fraction(1, 2), Fraction(1, 4), Fraction(1, 16), Fraction(1, 48)]
+    if M % 2:
+      pi = pi[::-1]
+    v = [0] * 7
+    for L in Ls:
+      v[0 if L <= med - 3 else 6 if L >= med + 3 else L - med + 3] += 1
+    chi = sum((v[i] - N * pi[i]) ** 2 / (N * pi[i]) for i in range(7))
+    q = 0
+    for L in Ls:
+      cnt = 1 if L == 0 else (2 * 4 ** (L - 1) if L <= M // 2 else 4 ** (M - L))        # census of BerlekampMassey.tla (CensusOk)
+      q += M - (cnt.bit_length() - 1)
+    mpm = _mp()
+    tosses = q - 1
+    p2 = mpm.fsum(mpm.binomial(tosses, j) for j in range(0, min(N - 1, tosses) + 1)) / mpm.mpf(2) ** tosses
+    return {'distribution': igamc(3, float(chi) / 2), 'extreme values': float(p2)}
   if test == 'LinearComplexityScatter':
     step = par
     def bm(seq):
@@ -456,6 +500,7 @@ def strings(rng, n):
   k = min(n, 40)
   out['onesided'] = [1] * k + [rng.getrandbits(1) for _ in range(n - k)]
   out['earlyzero'] = ([1, 0] * 3 + [rng.getrandbits(1) for _ in range(n)])[:n]
+  out['zerohead'] = ([0] * 20 + [rng.getrandbits(1) for _ in range(n)])[:n]      # whole all-zero blocks of small block sizes
   return out
 
 
@@ -511,6 +556,15 @@ def table_records():
       want.append(1 - sum(want))
       ok = len(got) == k + 1 and all(abs(g - w) <= 1.0001e-8 for g, w in zip(got, want))
       recs.append(rec('rank-32x32-k%d' % k, ok, {'code': got, 'exact': want}))
+    # every optional matrix shape: non-square shapes around the size where the square asymptotic table takes over
+    for (r_, c_, k_) in [(31, 32, 3), (32, 33, 3), (32, 40, 2), (40, 32, 5), (31, 31, 5), (33, 33, 4), (64, 64, 5), (30, 30, 3), (3, 3, 2), (8, 8, 3),
+                         (100, 31, 2), (16, 32, 3), (64, 60, 1)]:
+      got = [float(x) for x in ns.RankDistribution(r_, c_, k_)]
+      # documented: p_i = P(rank = r - i) (zero when r - i exceeds the number of columns), p_k = the rest
+      want = [float(rank_prob(r_, c_, r_ - j)) if 0 <= r_ - j <= min(r_, c_) else 0.0 for j in range(k_)]
+      want.append(1 - sum(want))
+      ok = len(got) == k_ + 1 and all(abs(g - w) <= 1.0001e-8 for g, w in zip(got, want))
+      recs.append(rec('rank-%dx%d-k%d' % (r_, c_, k_), ok, {'code': got, 'exact': want}))
     got = [float(x) for x in ns.RankDistribution(6, 8, 2, allow_approximation=False)]
     want = [float(rank_prob(6, 8, 6 - j)) for j in range(2)]
     want.append(1 - sum(want))
